@@ -57,7 +57,7 @@ package sync
 //@   modifies ghost:storeTailH, ghost:storeLow, AP_set, AP_val_Hdr, ghost:storeAppends, ghost:appendedTop, errNonAdjacent.Head, errNonAdjacent.Attempted, $now, ranges.ranges, headerRange.headers, headerRange.start, State.ID, State.FromHeight, State.ToHeight, State.FromHash, State.ToHash, State.Start, State.End, State.Error, Parameters.hash
 
 //@ func (*Syncer).renewTail(s, ctx, oldTail, head)
-//@   props C16
+//@   props C16, C03
 //@   requires validParams(s.Params)
 //@   requires oldTail.IsZero() || (1 <= oldTail.Height() && oldTail.Height() <= head.Height())
 //@   requires storeHeightBound <= head.Height()
@@ -68,14 +68,14 @@ package sync
 
 //@ func (*Syncer).subjectiveTail(s, ctx, head)
 //@   props C16
-//@   requires [C16] valid-params: validParams(s.Params)
-//@   requires [C16] entry-assumptions: !head.IsZero() && 1 <= head.Height() && head.Height() < MaxUint64 && storeHeightBound <= head.Height() && storeTailH <= head.Height()
+//@   requires [C16,local] valid-params: validParams(s.Params)
+//@   requires [C16,local] entry-assumptions: !head.IsZero() && 1 <= head.Height() && head.Height() < MaxUint64 && storeHeightBound <= head.Height() && storeTailH <= head.Height()
 //@   modifies ghost:storeTailH, ghost:storeLow, Parameters.hash, AP_set, AP_val_Hdr, ghost:storeAppends, ghost:appendedTop, errNonAdjacent.Head, errNonAdjacent.Attempted, $now, ranges.ranges, headerRange.headers, headerRange.start, State.ID, State.FromHeight, State.ToHeight, State.FromHash, State.ToHash, State.Start, State.End, State.Error
 
 // ---- bifurcation (C15)
 
 //@ func (*Syncer).setLocalHead(s, ctx, netHead)
-//@   props C15
+//@   props C15, C03
 //@   requires [C15,C03] verified-target: verified(netHead)
 //@   modifies AP_set, AP_val_Hdr, elems(H), EH_Int, headerRange.headers, headerRange.start, ranges.ranges, $now, ghost:storeAppends, ghost:appendedTop, errNonAdjacent.Head, errNonAdjacent.Attempted
 
@@ -259,7 +259,7 @@ package sync
 //@   ensures [C03] verified-or-initialized: result2 == nil && !result1 ==> verified(result0)
 
 //@ func (*Syncer).networkHead(s, ctx)
-//@   props C19
+//@   props C19, C03
 //@   ghost sbj H := result0 of call subjectiveHead #0
 //@   ghost sbjInit bool := result1 of call subjectiveHead #0
 //@   ghost sbjErr error := result2 of call subjectiveHead #0
